@@ -151,6 +151,11 @@ def _values_for(field, p, node_path):
             if field in vars(node):
                 cur = getattr(node, field)
                 break
+    return _typed_values(cur, field)
+
+
+def _typed_values(cur, field):
+    """Two values of the type of `cur` (the current value of `field`), the first different from it."""
     if isinstance(cur, bool):
         return [not cur, cur]
     if isinstance(cur, int):
@@ -233,6 +238,113 @@ def _exec_tree(case):
         ev.append(_set_event(p, node_path, field, v2, "attr", sig, memo, "after-other"))
     return ev
 
+
+
+
+# ---- Replace(node, child): assign a freshly constructed group to a nested-group attribute ---------------------------
+
+def _build_group(cls, how, rng):
+    """A fresh group of class cls: default-constructed, or constructed with non-default scalar fields."""
+    if how == "default":
+        return cls(), {}
+    import dataclasses
+    proto = cls()
+    own = sorted(f.name for f in dataclasses.fields(cls) if not f.name.startswith("_") and
+                 f.name not in ("time_begin", "time_end", "antialiased") and
+                 not hasattr(getattr(proto, f.name), "__dataclass_fields__"))
+    kw = {"time_begin": 3, "antialiased": False}
+    if own:
+        f = rng.choice(own)
+        kw[f] = _typed_values(getattr(proto, f), f)[0]
+    return cls(**kw), kw
+
+
+def _replace_event(p, node_path, child, how, rng, sig, memo, via="attr"):
+    """Assign a fresh group to node.child (via="attr"), or build the parent with it (via="parent-ctor", root only).
+    Returns (event, params object to continue with)."""
+    from commonroad.visualization.draw_params import MPDrawParams
+    before = memo.get("snap") or snapshot(p)
+    node = _node(p, node_path)
+    group, kw = _build_group(type(getattr(node, child)), how, rng)
+    built = snapshot(group)
+    res = "ok"
+    try:
+        if via == "parent-ctor":
+            p = MPDrawParams(**{child: group})
+            node = p
+        else:
+            setattr(node, child, group)
+    except Exception as ex:
+        res = "exc:" + type(ex).__name__
+    after = memo["snap"] = snapshot(p)
+    r = tuple(node_path) + (child,)
+    ev = {"op": "replace", "node": list(node_path), "child": child, "how": how, "via": via,
+          "with": sorted(kw), "res": res, "holds": int(getattr(node, child) is group),
+          "aliases": [list(path) for path, nd in _walk(p) if nd is group and tuple(path) != r],
+          "changed": [[list(path), k] for (path, k) in sorted(set(before) | set(after))
+                      if before.get((path, k), "<absent>") != after.get((path, k), "<absent>")],
+          "differs": [[list(rel), k, after.get((r + tuple(rel), k), "<absent>")] for (rel, k), tok in sorted(built.items())
+                      if after.get((r + tuple(rel), k), "<absent>") != tok],
+          "pvals": [[k, tok] for (path, k), tok in sorted(after.items()) if tuple(path) == tuple(node_path)],
+          "sig": sig}
+    return ev, p
+
+
+def _exec_replace(case):
+    """Histories Set;Replace;Set / Replace;Set / Set;Replace / Replace;Set inside;Set above on one real MPDrawParams."""
+    import random
+    from commonroad.visualization.draw_params import MPDrawParams
+    node_path, child, clean = tuple(case["node"]), case["child"], case["clean"]
+    r = node_path + (child,)
+    rng = random.Random(case["seed"])
+    at = "root" if not node_path else "inner"
+    ev = []
+
+    def sset(p, memo, where, field, which, step):
+        v = _values_for(field, p, where)[which]
+        name = field if field in ("time_begin", "time_end", "antialiased") else "field"
+        w = "root" if not where else ("new-group" if tuple(where[:len(r)]) == r else "parent")
+        return _set_event(p, where, field, v, "attr", "propagate/%s@%s/after-replace" % (name, w)
+                          if step != "before-replace" else "propagate/%s@%s" % (name, w), memo, step)
+
+    for how in ("default", "custom"):
+        below = sorted(case["scalars"])
+        f_in = rng.choice([f for f in below if f not in ("time_begin", "time_end", "antialiased")] or below)
+        rsig = "replace/%s@%s%s" % (how, at, "" if clean else "/aliasing")
+        # Set ; Replace            (also the only history for a slot whose name recurs below the node)
+        p, memo = MPDrawParams(), {}
+        ev.append(sset(p, memo, (), "time_begin", 0, "before-replace"))
+        e, p = _replace_event(p, node_path, child, how, rng, rsig, memo)
+        ev.append(e)
+        if not clean:
+            continue
+        # ... ; Set   (Set ; Replace ; Set at the root: the window selected after customising the parameters)
+        ev.append(sset(p, memo, (), "time_begin", 1, "after-replace"))
+        ev.append(sset(p, memo, (), "time_end", 0, "after-replace"))
+        # Replace ; Set at the parent group ; Set of a field of the new group's class at the root
+        p, memo = MPDrawParams(), {}
+        e, p = _replace_event(p, node_path, child, how, rng, rsig, memo)
+        ev.append(e)
+        ev.append(sset(p, memo, node_path, "time_begin", 0, "after-replace"))
+        ev.append(sset(p, memo, (), f_in, 0, "after-replace"))
+        # Replace ; Set inside the new group ; Set above it
+        p, memo = MPDrawParams(), {}
+        e, p = _replace_event(p, node_path, child, how, rng, rsig, memo)
+        ev.append(e)
+        ev.append(sset(p, memo, r, f_in, 0, "after-replace"))
+        ev.append(sset(p, memo, node_path, "antialiased", 0, "after-replace"))
+        # Replace twice ; Set
+        e, p = _replace_event(p, node_path, child, "default", rng, rsig, memo)
+        ev.append(e)
+        ev.append(sset(p, memo, (), "time_begin", 1, "after-replace"))
+        if not node_path:
+            # the constructor of the parent as the assignment: MPDrawParams(child=group) ; Set
+            p, memo = MPDrawParams(), {}
+            e, p = _replace_event(p, node_path, child, how, rng, rsig + "/parent-ctor", memo, via="parent-ctor")
+            ev.append(e)
+            ev.append(sset(p, memo, (), "time_begin", 0, "after-replace"))
+            ev.append(sset(p, memo, (), f_in, 0, "after-replace"))
+    return ev
 
 
 # =====================================================================================================================
@@ -354,7 +466,19 @@ def statement_flags(p):
 
 def _params_window(b, e, route):
     from commonroad.visualization.draw_params import MPDrawParams
-    if route == "ctor":
+    if route == "replace":
+        # customise by REPLACING nested groups with freshly built ones, select the window at the top level afterwards
+        from commonroad.visualization import draw_params as dp
+        p = MPDrawParams()
+        p.dynamic_obstacle = dp.DynamicObstacleParams(draw_signals=False,
+                                                      trajectory=dp.TrajectoryParams(draw_trajectory=False))
+        p.phantom_obstacle = dp.PhantomObstacleParams()
+        p.static_obstacle = dp.StaticObstacleParams()
+        p.environment_obstacle = dp.EnvironmentObstacleParams()
+        p.lanelet_network = dp.LaneletNetworkParams()
+        p.time_begin = b
+        p.time_end = e
+    elif route == "ctor":
         p = MPDrawParams(time_begin=b, time_end=e)
     else:
         p = MPDrawParams()
@@ -435,10 +559,12 @@ def _exec_window(case):
     descs, b, e = case["obs"], case["b"], case["e"]
     kind = descs[0]["kind"] if len(descs) == 1 else "mixed"
     tag = "%s/%s" % (kind, _wclass(descs[0], b, e) if len(descs) == 1 else "all")
+    if case.get("route"):
+        tag += "@after-" + case["route"]
     figs, ev = _Fig(), []
     try:
         for i, fname in enumerate(case["filters"]):
-            route = ("attr", "ctor", "item")[(b + e + i) % 3]
+            route = case.get("route") or ("attr", "ctor", "item")[(b + e + i) % 3]
             sc = build_window_scenario(descs)
             p = _params_window(b, e, route)
             statement_flags(p)
@@ -774,6 +900,10 @@ def model_check(ctx):
     check_tree(ctx)                 # fail early: every model below is built on the generated table
     # coverage off for the tree model (x4 run time; its only action is DoSet, the state count shows it is taken)
     ctx.mc("MC_Render", "MC_Render_t.cfg" if ctx.thorough else "MC_Render.cfg", coverage=False, timeout=1800)
+    # Set / Replace histories of depth 3 (root, dynamic_obstacle, one deep node); the deviation constant documents the
+    # seeded change seeded/C19-1 (a group that propagates to the nested groups it was constructed with)
+    ctx.mc("MC_Render", "MC_Render_rep.cfg", coverage=False, timeout=1800)
+    ctx.mc_expect("MC_Render", "DEV_Render_1.cfg", "PropContract")
     ctx.mc("MC_Render", "MC_Render_win.cfg", coverage=True)
 
 
@@ -811,6 +941,12 @@ def cases(ctx):
     tree = ctx.gen("MC_Render", "GEN_Render_tree.cfg")
     for c in tree:
         cs.append({"part": "tree", "node": list(c["node"]), "fields": sorted(c["fields"]), "seed": rng.randrange(1 << 30)})
+    # (1b) replace: every slot (node, child group) of the table
+    slots = ctx.gen("MC_Render", "GEN_Render_rep.cfg")
+    for c in slots:
+        cs.append({"part": "replace", "node": list(c["node"]), "child": c["child"], "clean": c["clean"],
+                   "scalars": sorted(c["scalars"]), "seed": rng.randrange(1 << 30)})
+    ctx.extra["replace_slots"] = {"slots": len(slots), "clean (histories continue with Sets)": sum(c["clean"] for c in slots)}
     # (2) windows: every descriptor x window, all lanelet filters; all descriptors in one scenario per window
     win = ctx.gen("MC_Render", "GEN_Render_win.cfg")
     descs, windows = [], []
@@ -828,6 +964,9 @@ def cases(ctx):
     for b, e in sorted(windows):
         cs.append({"part": "window", "obs": [dict(d, id=i + 1) for i, d in enumerate(descs)], "b": b, "e": e,
                    "filters": ["none", "two"]})
+        # the window selected at the top level AFTER nested groups were replaced by freshly built ones
+        cs.append({"part": "window", "obs": [dict(d, id=i + 1) for i, d in enumerate(descs)], "b": b, "e": e,
+                   "filters": ["none"], "route": "replace"})
         for _ in range(8 if ctx.thorough else 1):                # random sub-scenarios, shuffled ids
             sub = rng.sample(descs, 6)
             ids = rng.sample(range(1, 30), 6)
@@ -886,6 +1025,8 @@ def execute(case):
     part = case["part"]
     if part == "tree":
         return {"ev": _exec_tree(case)}
+    if part == "replace":
+        return {"ev": _exec_replace(case)}
     if part == "window":
         return {"ev": _exec_window(case)}
     if part == "total":
@@ -896,8 +1037,10 @@ def execute(case):
 def nontrivial(case):
     if case["part"] == "tree":
         return ("tree", tuple(case["node"]))
+    if case["part"] == "replace":
+        return ("replace", tuple(case["node"]), case["child"])
     if case["part"] == "window":
-        return ("window", json.dumps(case["obs"], sort_keys=True), case["b"], case["e"], tuple(case["filters"]))
+        return ("window", case.get("route", ""), json.dumps(case["obs"], sort_keys=True), case["b"], case["e"], tuple(case["filters"]))
     return ("total", case["arch"], json.dumps(case["flags"], sort_keys=True), case["lf"], case["pf"])
 
 
@@ -912,6 +1055,12 @@ def corrupt(trace, rng):
             mine[0][1] = "<corrupted>"                            # the node itself did not take the value -> missed
         else:
             e["changed"].append([["static_obstacle"], "<no-such-field>"])      # something else changed -> clobbered
+    elif e["op"] == "replace":
+        if rng.random() < 0.5:
+            e["holds"] = 0                                        # the assignment did not take -> lost
+        else:
+            e["changed"].append([["static_obstacle"] if e["node"] + [e["child"]] != ["static_obstacle"] else ["shape"],
+                                 "time_begin"])                   # a group elsewhere changed -> clobbered
     elif e["op"] == "drawn":
         e["drawn"].append([99, 0])                                # a shape nobody reported -> extra
     elif e["op"] == "lanelets":
